@@ -50,8 +50,10 @@ ASSUMPTIONS = [
     "(e.g. `[^a]` negates in re and is a literal ^ for fnmatch), see `simplePattern`; such patterns are counted "
     "as `unsupported-class` and skipped; a class that contains `/` is split by glob at the separator and tallied "
     "as `expected-incomplete:class-with-separator`",
-    "tree comparisons use relative patterns whose glob form has no empty, `.` or `..` component; trees have no "
-    "symlinks; the language statements are about trees that list every ancestor directory (`closedTree`)",
+    "tree comparisons use relative patterns whose glob form has no empty, `.` or `..` component; the trees of the MODEL "
+    "have no symlinks (trees with links to files, to directories and dangling links are decided on the implementation "
+    "alone by `symlink_oracle`: scan = standard glob and accepted, incremental update = fresh scan for complete change "
+    "lists); the language statements are about trees that list every ancestor directory (`closedTree`)",
     "a directory is recorded only through a pattern that ends in a single-component wildcard, `**` or `/` "
     "(design of nglob: the match carries a trailing separator, theorem directory_needs_wildcard_negation); the "
     "glob-versus-recorded comparison of the oracle is therefore made on non-directory paths",
